@@ -1,6 +1,7 @@
 import Oas3Model.Gen.HashSites
 import Oas3Model.Model.Responses
 import Oas3Model.Proofs.Misc11
+import Oas3Model.Proofs.CanonPerm
 namespace Oas3.Props.C11
 open Oas3.Gen.HashSites
 
@@ -68,5 +69,51 @@ example : sortKeys [("b".toList, 2), ("a".toList, 1), ("c".toList, 3)] = sortKey
 theorem cex_dup_key_order :
     sortKeys [("a".toList, 1), ("a".toList, 2)] ≠ sortKeys [("a".toList, 2), ("a".toList, 1)] := by
   decide +kernel
+
+/-! ## the cache key (`CanonicalSchema::from_schema`) does not see how the schema was written down
+
+`Oas3.Cache.canon` = `normalize_schema_semantics` followed by the RFC 8785 member order (model of `hashing.rs`, tied to the
+real function by `cache.canon` in C13's and this check's K tie). `PermJ a b` = "`b` is `a` with the members of any of its
+objects, at any depth, written in another order" (objects with distinct keys, which is all a JSON/YAML parser delivers). -/
+open Oas3.Cache in
+/-- the canonical form — and with it every decision keyed on it: type sharing, pre-computed names, de-duplication — is the
+same for every re-ordering of object members at every depth (unbounded documents) -/
+theorem canon_key_order_independent {a b : Oas3.Cache.J} (h : Oas3.Cache.PermJ a b) :
+    Oas3.Cache.canon a = Oas3.Cache.canon b ∧ Oas3.Cache.canonString a = Oas3.Cache.canonString b :=
+  ⟨Oas3.Cache.canon_permJ h, Oas3.Cache.canonString_permJ h⟩
+
+/-- one object level (distinct keys): the member order after the RFC 8785 sort is that of no particular input order -/
+theorem member_sort_order_independent (l₁ l₂ : List (List Char × Oas3.Cache.J)) (hp : l₁.Perm l₂) (hk : (l₁.map (·.1)).Nodup) :
+    Oas3.Cache.sortKV l₁ = Oas3.Cache.sortKV l₂ := Oas3.Cache.sortKV_perm l₁ l₂ hp hk
+
+section witness
+open Oas3.Cache
+private def k (s : String) : List Char := s.toList
+/-- `{"type":"object","properties":{"a":{"default":{"burst":10,"rate":5}},"b":1}}` … -/
+def docA : J := .obj [(k "type", .str (k "object")), (k "properties", .obj [(k "a", .obj [(k "default", .obj [(k "burst", .num 10), (k "rate", .num 5)])]), (k "b", .num 1)])]
+/-- … and the same document with the members of three of its objects exchanged -/
+def docB : J := .obj [(k "properties", .obj [(k "b", .num 1), (k "a", .obj [(k "default", .obj [(k "rate", .num 5), (k "burst", .num 10)])])]), (k "type", .str (k "object"))]
+
+/-- non-vacuity: the two are related (member order only, at depths 0, 1 and 3) … -/
+theorem docA_perm_docB : PermJ docA docB := by
+  have inner : PermJ (.obj [(k "burst", .num 10), (k "rate", .num 5)]) (.obj [(k "rate", .num 5), (k "burst", .num 10)]) :=
+    .obj (mid := [(k "burst", .num 10), (k "rate", .num 5)]) (.cons (.leaf _) (.cons (.leaf _) .nil)) (List.Perm.swap _ _ _) (by decide)
+  have a' : PermJ (.obj [(k "default", .obj [(k "burst", .num 10), (k "rate", .num 5)])]) (.obj [(k "default", .obj [(k "rate", .num 5), (k "burst", .num 10)])]) :=
+    .obj (mid := [(k "default", .obj [(k "rate", .num 5), (k "burst", .num 10)])]) (.cons inner .nil) (List.Perm.refl _) (by decide)
+  have props : PermJ (.obj [(k "a", .obj [(k "default", .obj [(k "burst", .num 10), (k "rate", .num 5)])]), (k "b", .num 1)])
+      (.obj [(k "b", .num 1), (k "a", .obj [(k "default", .obj [(k "rate", .num 5), (k "burst", .num 10)])])]) :=
+    .obj (mid := [(k "a", .obj [(k "default", .obj [(k "rate", .num 5), (k "burst", .num 10)])]), (k "b", .num 1)])
+      (.cons a' (.cons (.leaf _) .nil)) (List.Perm.swap _ _ _) (by decide)
+  exact .obj (mid := [(k "type", .str (k "object")), (k "properties", .obj [(k "b", .num 1), (k "a", .obj [(k "default", .obj [(k "rate", .num 5), (k "burst", .num 10)])])])])
+    (.cons (.leaf _) (.cons props .nil)) (List.Perm.swap _ _ _) (by decide)
+
+/-- … so they have one cache key (instance of the theorem; also checked by evaluation) -/
+example : canonString docA = canonString docB := (canon_key_order_independent docA_perm_docB).2
+example : canonString docA = canonString docB := by decide +kernel
+
+/-- the RFC 8785 stage is what makes it so: rendered right after normalisation (member order as written, which is what
+`serde_json` with `preserve_order` does for free-form values such as `default`) the two documents differ -/
+theorem cex_without_member_sort : ser (normalize docA) ≠ ser (normalize docB) := by decide +kernel
+end witness
 
 end Oas3.Props.C11
